@@ -240,7 +240,12 @@ class FileInfo:
 
         self.arch_len = len(arch_data)
 
-        if self.arch_len:
+        if self.arch_len and arch_index is None:
+            # Stored after the file tree in the directory file, which write_dirfile() saves.
+            self.arch_index = None
+            self.offset = len(self.vpk.footer_data)
+            self.vpk.footer_data += arch_data
+        elif self.arch_len:
             self.arch_index = arch_index
             arch_file = get_arch_filename(prefix, arch_index)
             with open(os.path.join(self.vpk.folder, arch_file), 'ab') as file:
